@@ -25,7 +25,13 @@ type H struct {
 }
 
 func (h *H) budget(quick, thorough int) int {
-	if h.tier == "thorough" {
+	switch h.tier {
+	case "thorough":
+		return thorough
+	case "search": // used after a broken obligation/correspondence: a few times the quick budget
+		if quick*4 < thorough {
+			return quick * 4
+		}
 		return thorough
 	}
 	return quick
